@@ -197,6 +197,8 @@ PROPS["C01"] = dict(
     level="exploration", contracts=["contracts.inspect311", "contracts.c01_lemmas", "contracts.lowlevel", "contracts.inspect310"],
     unit_filter=lambda u: (not u.name.startswith("C20.") or u.name == "C20.contexts_active_in_frame") and u.name != "C02.inspect_frame_310.stack",
     legs=[dict(name="c02_exit_names", cmd="PYTHONPATH={repo} " + PY312 + " legs/c02_exit_names.py"),
+          dict(name="c02_exit_names_O", cmd="PYTHONPATH={repo} " + PY312 + " -O legs/c02_exit_names.py"),
+          dict(name="c01_cmanagers_O", cmd="PYTHONPATH={repo} " + PY312 + " -O legs/c01_cmanagers.py"),
           dict(name="c02_exit_names_py311", cmd="PYTHONPATH={repo} " + PY311 + " legs/c02_exit_names.py")] + old_pythons("c02_exit_names", "c02_exit_names.py") + [
           dict(name="c01_huge_consts", cmd="PYTHONPATH={repo} " + PY312 + " legs/c01_huge_consts.py"),
           dict(name="c01_huge_consts_py310", cmd="PYTHONPATH={repo}:{verif}/.vendor " + PY310 + " legs/c01_huge_consts.py"),
@@ -284,6 +286,8 @@ PROPS["C18"] = dict(
     level="exploration", contracts=["contracts.types_fmt"],
     unit_filter=lambda u: u.name.startswith("C18.") or u.name == "C19.Stack._format_header",
     legs=[dict(name="trees_C18", cmd="PYTHONPATH={repo} " + PY312 + " legs/trees.py C18"),
+          dict(name="trees_C18_ascii_stdout", cmd="PYTHONIOENCODING=ascii PYTHONPATH={repo} " + PY312 + " legs/trees.py C18"),
+          dict(name="trees_C18_O", cmd="PYTHONPATH={repo} " + PY312 + " -O legs/trees.py C18"),
           dict(name="trees_C18_py311", cmd="PYTHONPATH={repo} " + PY311 + " legs/trees.py C18", thorough_only=True)] + old_pythons("trees_C18", "trees.py C18"),
     technique="bounded contract check: decoder (parse) applied to format() of generated Stack trees must return the tree's shape; "
               "string obligations of the line grammar are not discharged deductively (see DESIGN.md: fallback B taken)",
@@ -322,7 +326,8 @@ PROPS["C19"] = dict(
 PROPS["C09"] = dict(
     level="other", contracts=["contracts.glue_small", "contracts.c11", "contracts.c13"],
     unit_filter=lambda u: u.name.startswith("C09.") or u.name.startswith("C11.fill_context") or u.name == "C13.push",
-    legs=[dict(name="c09_trees", cmd="PYTHONPATH={repo} " + PY312 + " legs/c09_trees.py"), dict(name="c13_options", cmd="PYTHONPATH={repo} " + PY312 + " legs/c13_options.py")] + old_pythons("c09_trees", "c09_trees.py"), technique=TECH + "; bounded registration-sequence leg",
+    legs=[dict(name="c09_trees", cmd="PYTHONPATH={repo} " + PY312 + " legs/c09_trees.py"),
+          dict(name="c09_trees_O", cmd="PYTHONPATH={repo} " + PY312 + " -O legs/c09_trees.py"), dict(name="c13_options", cmd="PYTHONPATH={repo} " + PY312 + " legs/c13_options.py")] + old_pythons("c09_trees", "c09_trees.py"), technique=TECH + "; bounded registration-sequence leg",
     explanation="Deductive part (all inputs): elaborate_generatorbased_contextmanager sets inner_stack = extract_child(mgr.gen, for_task=False) "
                 "iff the context is not exiting and always a description, touching nothing else; elaborate_exit_stack's loop is cut by an "
                 "invariant (children attached up front, one child appended per callback at position idx = registration order, fill_context run "
